@@ -134,8 +134,27 @@ def _union_dumper_scenarios(kind):
                     data = obj_cls()
                     return (lambda data: clo(data)), {"data": data}, {
                         "dumper_type_dispatcher": disp, "res": lambda f, d: f(d), "mcall": lambda name, o, *a: getattr(o, name)(*a),
-                        "mok": lambda name, o, *a: _ok(getattr(o, name), *a)}
+                        "mok": lambda name, o, *a: _ok(getattr(o, name), *a),
+                        "literal_cases": ("lit", 7), "literal_dumper": (lambda d: ("literal", d)), "ok": lambda f, d: _ok(f, d)}
                 out.append((f"cases={[c.__name__ for c in cases]}|{obj_cls.__name__}", factory))
+        if kind != "plain":
+            # data that EQUAL a literal case without being one (another class with a case of its own), and real members
+            import decimal
+            import fractions
+            for lits in ((0, 1, "zz"), (7, "A")):
+                for mk in (lambda: decimal.Decimal(1), lambda: 1.0, lambda: True, lambda: fractions.Fraction(7), lambda: 1, lambda: 7,
+                           lambda: "zz", lambda: "A", lambda: [1], lambda: 2, lambda: decimal.Decimal("sNaN"), lambda: (1,)):
+                    def factory(lits=lits, mk=mk):
+                        data = mk()
+                        disp = ClassDispatcher({c: (lambda d, c=c: ("dumped-as", c.__name__)) for c in
+                                                (decimal.Decimal, float, bool, fractions.Fraction, list)})
+                        lit_dumper = lambda d: ("literal", d)  # noqa: E731
+                        clo = mod.UnionProvider()._produce_dumper_for_literal(disp, lit_dumper, lits)
+                        return (lambda data: clo(data)), {"data": data}, {
+                            "dumper_type_dispatcher": disp, "literal_dumper": lit_dumper, "literal_cases": lits,
+                            "res": lambda f, d: f(d), "mcall": lambda name, o, *a: getattr(o, name)(*a),
+                            "mok": lambda name, o, *a: _ok(getattr(o, name), *a), "ok": lambda f, d: _ok(f, d)}
+                    out.append((f"literals={lits!r}|{mk()!r}", factory))
         return out
     return gen
 
@@ -167,3 +186,26 @@ contract(F, "UnionProvider._get_single_optional_dumper.<locals>.optional_dumper"
                "error": "implies(raised, is_err(exc, dumper, data) and trail_unchanged(exc))"},
          clause_props={"accept-iff": ["C02", "C06"], "value": ["C02", "C01", "C06"], "error": ["C05", "C06"], "modifies-nothing": ["C20"]},
          cover=["returned", "raised"])
+
+
+# A union with a Literal case: "Dumper finds appropriate dumper using object type" still holds — only a datum that IS one of the literal
+# values (same class and equal) belongs to the Literal case; a datum of a class that has a case of its own is dumped by that case even
+# when it compares equal to a literal of another class (Decimal(200) vs Literal[200], a str-mixin Enum member vs Literal["a"]).
+IS_LITERAL = "py(lambda d, cs: any(type(d) is type(c) and ctor_ok(lambda: d == c) and d == c for c in cs), data, literal_cases)"
+NO_LITERAL_OF_ITS_CLASS = "py(lambda d, cs: all(type(d) is not type(c) for c in cs), data, literal_cases)"
+for _lab, _lits in [("int01-str", (0, 1, "zz")), ("int7-str", (7, "A"))]:
+    contract(F, "UnionProvider._produce_dumper_for_literal.<locals>.union_dumper_with_literal",
+             name=f"{F}:UnionProvider._produce_dumper_for_literal.<locals>.union_dumper_with_literal[{_lab}]", props=["C02", "C01", "C20"],
+             via=Via("UnionProvider._produce_dumper_for_literal", {_lab: lambda m: m.UnionProvider()},
+                     args={"dumper_type_dispatcher": "sym", "literal_dumper": "DUMP", "literal_cases": ("const", _lits)}),
+             params={"data": "D"}, methods={"dispatch": "VAL_OR_RAISE"}, decl_disciplines={"mcall_dispatch": "DUMP"},
+             post={"literal-member-by-literal-dumper": f"implies(returned and {IS_LITERAL}, result == res(literal_dumper, data))",
+                   "other-classes-by-class": (f"implies(returned and {NO_LITERAL_OF_ITS_CLASS} and mok('dispatch', dumper_type_dispatcher, type(data)), "
+                                              f"result == res({DISPATCHED}, data))"),
+                   # an error is the error of the dumper in charge, or there is no case for the class of the datum
+                   "raises-only-what-a-dumper-raises": (f"implies(raised, ite({IS_LITERAL}, not ok(literal_dumper, data), "
+                                                        f"not mok('dispatch', dumper_type_dispatcher, type(data)) or not ok({DISPATCHED}, data) "
+                                                        f"or not ok(literal_dumper, data)))")},
+             clause_props={"literal-member-by-literal-dumper": ["C02", "C01"], "other-classes-by-class": ["C02"],
+                           "raises-only-what-a-dumper-raises": ["C02"], "modifies-nothing": ["C20"]},
+             scenarios=_union_dumper_scenarios("literal"), cover=["returned", "raised"])
